@@ -450,6 +450,48 @@ func runC30(c *core.Ctx) {
 	}
 	c.OK("FMT6", "node-typed fields rendered through %s", 0, len(formats), fmt.Sprintf("%d printers scanned, %d node-typed fields bypass their printer", len(formats), len(vs)))
 
+	// ---- FMT6 (glue): an operator string printed directly against a child expression needs a guard for the child
+	// starting with an operator itself (`-` glued to `-a` is `--a`, a comment)
+	nGlue := 0
+	for n, fd := range formats {
+		if len(fd.Recv.List[0].Names) == 0 {
+			continue
+		}
+		recvName := fd.Recv.List[0].Names[0].Name
+		ast.Inspect(fd.Body, func(x ast.Node) bool {
+			call, ok := x.(*ast.CallExpr)
+			if !ok {
+				return true
+			}
+			se, ok := call.Fun.(*ast.SelectorExpr)
+			if !ok || se.Sel.Name != "Myprintf" || len(call.Args) != 3 {
+				return true
+			}
+			tv, ok := info.Types[call.Args[0]]
+			if !ok || tv.Value == nil || constant.StringVal(tv.Value) != "%s%v" {
+				return true
+			}
+			op, child := core.ExprStr(call.Args[1]), core.ExprStr(call.Args[2])
+			if op != recvName+".Operator" || !strings.HasPrefix(child, recvName+".") {
+				return true
+			}
+			nGlue++
+			guard := false
+			ast.Inspect(fd.Body, func(y ast.Node) bool {
+				if ta, ok := y.(*ast.TypeAssertExpr); ok && core.ExprStr(ta.X) == child && core.ExprStr(ta.Type) == "*"+n.Obj().Name() {
+					guard = true
+				}
+				return true
+			})
+			c.Decide(guard, "FMT6", n.Obj().Name()+".Format/operator glued to operand", call.Pos(), 1, "a nested "+n.Obj().Name()+" operand is separated from the operator",
+				fmt.Sprintf("%s prints its operator directly against the operand (%q): when the operand is itself a %s the two operators fuse (`- -a` becomes `--a`, which the lexer reads as a comment); the nested case needs a separating space", n.Obj().Name(), "%s%v", n.Obj().Name()))
+			return true
+		})
+	}
+	if nGlue == 0 {
+		c.Unknown("FMT6", "operator glued to operand", 0, "no printer gluing an operator to its operand found (UnaryExpr expected)")
+	}
+
 	// ---- FMT3: implementations of one interface print distinct constant text
 	var ifaces []*types.Named
 	for _, name := range pkg.Types.Scope().Names() {
